@@ -6,6 +6,14 @@ VERIF = os.path.dirname(os.path.dirname(os.path.abspath(__file__)))
 
 # id -> (category, technique, text, note)
 CLAIMS = {
+    'C12': ('other',
+            'static analysis: ownership/effect classification of every store site (reaching-definition freshness, interprocedural parameter-mutation fixpoint), audit of the PLY table-cache guard',
+            'Decides the existence of hidden state channels: memo flags is_eval/is_term only on nodes created in the same function; no mutable default argument that is '
+            'mutated/read and omitted by a call site; no in-place store to a field of an IR node not created in the same function; every operand the decoder appends is '
+            'a fresh dict (table rows never escape); ply.yacc returns cached tables only under read_signature == signature, call sites pass no optimize, the signature '
+            'folds start/precedence/tokens/docstrings, lexers have no on-disk cache.',
+            'Not decided: whether a leaked state changes a later result for a given history. One genuine channel (is_eval on shared singletons) is a known finding: '
+            'repairing it breaks an existing test expectation that encodes the defect.'),
     'C18': ('other',
             'static analysis: class-declaration model of ppc_arch (field tiling, pairwise satisfiability of acceptance predicates over opcode bits, MRO-resolved rendering attributes) compared with an independent PowerPC opcode map',
             'From the declarations alone: every class tiles 32 bits; every pair of the 82 classes has disjoint acceptance predicates (fixed bits + extended-opcode sets, '
